@@ -202,6 +202,33 @@ func init() {
 		m.wantYield = "yield"
 		return nil, true
 	})
+	zz("Quiesce", func(m *Machine, th *Thread, fn *ssa.Function, a []Value) (Value, bool) {
+		// let every other thread run until it blocks or finishes
+		others := func() bool {
+			for _, t := range m.threads {
+				if t == th {
+					continue
+				}
+				if t.state == tsBlocked && t.blockCond != nil && t.blockCond() {
+					return true
+				}
+				if t.state == tsRunnable && t.top != nil {
+					return true
+				}
+			}
+			return false
+		}
+		if others() {
+			if th.quiesced {
+				th.quiesced = false
+				return nil, true
+			}
+			th.quiesced = true
+			m.block(th, "quiesce", func() bool { return !others() })
+		}
+		th.quiesced = false
+		return nil, true
+	})
 	zz("SetMapOrderLimit", func(m *Machine, th *Thread, fn *ssa.Function, a []Value) (Value, bool) {
 		m.cfg.Params["mapOrderLimit"] = m.concInt(a[0], "limit")
 		return nil, true
